@@ -53,6 +53,18 @@ var realCommon = []string{"all of google/pprof's packages profile and internal/{
 var stubCommon = []string{"kernel filesystem (simos in-memory disk with fault and crash model)", "goroutine scheduler (simrt baton scheduler driven by the choice tape)", "sync primitives' blocking behaviour (simsync model + real primitive)", "clock (simtime)", "external programs dot/addr2line/nm/objdump/browsers (simexec scripts)", "terminal, flags, output writer (plug-in seams)", "HTTP listener (handlers called directly through the HTTPServer seam)", "remote servers (http.RoundTripper seam)"}
 
 var specs = map[string]*checkSpec{
+	"C16": {Prop: "C16", Engine: "c16", Pkg: "internal/driver", Level: "exploration", QuickS: 45, ThorS: 1200,
+		Rule:     "cases are seeded source lists (1..6, 127..130, 255..300 sources, 0..3 bases, kinds file/URL/Fetcher) with a seeded per-source fault plan (missing, HTTP 404/500, garbage, torn body or file, invalid profile, Fetcher error, stall until the client timeout in simulated time, disk read error) run through the real driver.PProf with every fetch goroutine a simulated task under run-to-block, random-walk (sync, I/O and function-entry preemption) or PCT scheduling and seeded simulated latencies; plus a block that enumerates, for n<=3 (quick) / n<=4 (thorough) remote sources, every failing subset x every completion order. Oracles: reference model built from the generator's description of the good sources, byte equality with the sequential zero-latency schedule, byte equality with the run listing only the good sources, per-source error accounting, exit status, no deadlock/hang. A sampled case is distinct by (source list with kinds, faults and latencies, context-switch signature) and non-trivial if it has >=2 sources or bases and at least one context switch happened",
+		StateDef: "distinct (n, failing-subset signature, completion-order signature) triples",
+		Assume:   []string{"the http.Client timeout watcher goroutine inside net/http is not simulated; a stalled source is modelled by the transport sleeping 65 simulated seconds and returning the error class http.Client produces", "sources are tiny profiles over a shared universe of 6 functions and 3 label sets with identical sample types"}},
+	"C10": {Prop: "C10", Engine: "c10", Pkg: "internal/driver", Level: "exploration", QuickS: 45, ThorS: 1200,
+		Rule:     "cases are seeded interactive histories (commands with arguments interleaved with option assignments), sequential web histories (incl. saveconfig/deleteconfig) and concurrent web mixes (2-4 clients under random-walk/PCT scheduling with function-entry preemption) over seeded profiles; every step's output file bytes, UI transcript or HTTP status+body is compared with the same step on a FRESH session (simulated process boundary) that executed only the preceding option assignments. A case is distinct by its full line/request list (and context-switch signature for concurrent mixes) and non-trivial if a profile-mutating report (filters, hide/show, tag filters, aggregation, label frames) preceded another report, resp. at least one context switch happened inside the concurrent requests",
+		StateDef: "distinct (option-assignment state, command kind) pairs compared / (handler, status) pairs",
+		Assume:   []string{"process-wide state that a real process builds once (sample_index help text, shortcut table) is reset by the simulated process boundary", "outputs are always redirected so that temp-file names and os.Stdout do not enter the comparison"}},
+	"C08": {Prop: "C08", Engine: "c08", Pkg: "internal/driver", Level: "exploration", QuickS: 45, ThorS: 1200,
+		Rule:     "cases are (tie-rich seeded profiles: values from {-2,-1,1,2}, equal names at different addresses, several labels, inlining; 1-3 sources, optional -base/-diff_base drawn from the same pool) x (report command with seeded options, or web request); each case runs once with canonical map order and sequential fetch as reference and then 6 (quick) / 24 (thorough) times with every range-over-map permuted by a seeded policy (reverse, rotate, shuffle, mixed) and, for multi-source cases, a seeded fetch interleaving; oracle = byte equality of output and error text; plus the same command three times inside one interactive session. A case is distinct by (profile bytes, command line) and non-trivial if at least two permuted runs actually permuted a map with >=2 keys and the reference output is non-empty",
+		StateDef: "distinct command lines / web requests exercised",
+		Assume:   []string{"pointer-keyed maps get their canonical order from first-insertion stamps (instrumented inserts); unstamped pointer keys are counted in stats.unstamped and probes.unstamped_pointer_keys", "the scripted dot tool is a deterministic function of its whole input"}},
 	"C19": {Prop: "C19", Engine: "c19", Pkg: "internal/driver", Level: "fault_enumeration", QuickS: 50, ThorS: 1200,
 		Rule:     "cases are seeded histories of save/delete/render/clone requests against the real web handlers in three modes: sequential histories checked step by step against an independent model of settings.json; one operation after a seeded prefix re-executed once per crash point (before/after every simulated system call and after every byte of every write) and per I/O error (ENOSPC/EIO/EACCES, short writes at every byte), each followed by restart and a liveness probe; 2-3 concurrent clients under the seeded scheduler checked by exact linearizability search. A case is distinct by (mode, initial state, operations, context-switch signature) and non-trivial if at least one saved configuration existed or was created and, for the fault mode, at least one fault fired, for the concurrent mode, at least two requests overlapped",
 		StateDef: "distinct settings.json states (decoded by the engine's own reader) observed after an operation, fault or crash",
